@@ -32,7 +32,11 @@ EXPLANATION = (
     "(source, target, idx) of the record to get_edge and re-registers the edge under the same idx.  R4 inputs and outputs are "
     "re-addressed to every sub-circuit with the prefix `all/`, the run receives them together with the caller's simulation_time, "
     "step_size and sampling_step_size, and its result is returned.  R5 linearize_grid keeps column j of the permuted grid with key j "
-    "(values and keys appended in lock-step, meshgrid stacked along the last axis, reshaped to (-1, n)).  NOT decided: everything "
+    "(values and keys appended in lock-step, meshgrid stacked along the last axis, reshaped to (-1, n)).  R7 every swept circuit's output "
+    "is located with that circuit's own node key: in CircuitTemplate.get_variable_positions whatever is stored per node (inside a loop / "
+    "comprehension over the nodes found by get_nodes, or over keys built from them one by one) into the two returned maps - position "
+    "and backend variable - depends on the loop's node through every definition that reaches it (a value bound before the loop, or only "
+    "on some iterations, is the value of another node unless all nodes were merged into one backend variable).  NOT decided: everything "
     "behavioural - wildcard expansion (C06), that overrides reach their targets (C07), vectorisation of the combined circuit (C04), "
     "the numerical equality itself."
 )
@@ -2224,6 +2228,203 @@ def r6_edge_update_selects_one_edge(ctx, rid):
     r4_edge_update_replaces_exactly_one_edge(ctx, rid)
 
 
+
+# --------------------------------------------------------------------------------------------
+# R7 — every swept circuit's output is located with that circuit's own node key
+# --------------------------------------------------------------------------------------------
+
+def _loop_dependent(ctx, F, e, loop, names, seen=None, depth=0) -> Optional[bool]:
+    """Does the value of `e` (evaluated inside one iteration of `loop`) depend on the loop's variables `names`?  An expression does
+    when one of its names does; a name does when EVERY definition that reaches it is the loop's own binding or lies inside the loop
+    and is itself dependent - a definition from before the loop (or one that is only made on some iterations: a memo) means the
+    value may be the one computed for another node.  True / False; None when the value is computed inside the loop by a call that
+    mentions no name at all (cannot be told from a per-node value)."""
+    seen = seen if seen is not None else frozenset()
+    rd = ctx.rd(F)
+    verdict: Optional[bool] = False
+    for n in ast.walk(e):
+        if isinstance(n, ast.Call) and contains(loop, n) and isinstance(n.func, ast.Attribute) and not isinstance(n.func.value, ast.Constant) \
+                and not any(isinstance(x, ast.Name) for a in list(n.args) + [k.value for k in n.keywords] for x in ast.walk(a)):
+            verdict = None                                   # `self.next_label()` inside the loop: stateful for all we know
+    for n in ast.walk(e):
+        if not (isinstance(n, ast.Name) and isinstance(n.ctx, ast.Load)):
+            continue
+        g = comp_generator_of(n) if hasattr(n, "_parent") else None
+        if g is not None and g != "lambda":
+            if g is loop and n.id in names:
+                return True
+            if g is not loop and _loop_dependent(ctx, F, g.iter, loop, names, seen, depth + 1):
+                return True
+            continue
+        defs = rd.defs_reaching(n)
+        if not defs or depth > 10:
+            continue
+        all_dep = True
+        for d in defs:
+            if d is loop:
+                if n.id not in names:
+                    all_dep = False
+                continue
+            if isinstance(d, ast.arguments) or not contains(loop, d) or id(d) in seen:
+                all_dep = False                               # bound before the loop (or a cycle): the same for every iteration
+                continue
+            src = None
+            if isinstance(d, (ast.Assign, ast.AnnAssign)):
+                src = assigned_value(d, n.id) or d.value
+            elif isinstance(d, ast.AugAssign):
+                src = d.value
+            elif isinstance(d, (ast.For, ast.AsyncFor)):
+                src = d.iter
+            elif isinstance(d, (ast.With, ast.AsyncWith)):
+                src = d.items[0].context_expr
+            r = _loop_dependent(ctx, F, src, loop, names, seen | {id(d)}, depth + 1) if src is not None else None
+            if r is None:
+                verdict = None
+            if not r:
+                all_dep = False
+        if all_dep:
+            return True
+    return verdict
+
+
+def r7_outputs_located_per_node(ctx, rid):
+    """grid_search re-addresses every output to `all/<path>`, which CircuitTemplate.get_variable_positions expands to one node per
+    swept circuit.  Nodes under one output key need not have been merged into one backend variable (vectorize=False, or nodes of
+    different structure), so for EVERY target node both the backend variable and the position inside it must be looked up with THAT
+    node's key: whatever is stored per node into the two returned maps has to depend on the loop's node."""
+    gvp = syn(ctx, ctx.repo.get_func(CIRC, "CircuitTemplate.get_variable_positions"))
+    rd = ctx.rd(gvp)
+    cfg = ctx.cfg(gvp)
+    rets = [n for n in walk_shallow(gvp.node) if isinstance(n, ast.Return) and n.value is not None]
+    ctx.require(rets and all(isinstance(r.value, ast.Tuple) and len(r.value.elts) == 2 and all(isinstance(x, ast.Name) for x in r.value.elts) for r in rets),
+                f"{rid}: get_variable_positions does not return `<positions>, <backend variables>` as two names (unrecognised form)")
+    maps = {}
+    for r in rets:
+        for role, x in zip(("position", "backend variable"), r.value.elts):
+            maps.setdefault(x.id, (role, x))
+
+    def base_of(t):
+        while isinstance(t, ast.Subscript):
+            t = t.value
+        return t
+    # local names that stand for (a part of) one of the two returned maps: `positions = out_map`, `positions = out_map[key]`,
+    # `positions = {}; out_map[key] = positions`
+    changed = True
+    while changed:
+        changed = False
+        for n in walk_shallow(gvp.node):
+            if isinstance(n, ast.Assign) and len(n.targets) == 1:
+                t, v = n.targets[0], n.value
+                if isinstance(t, ast.Name) and t.id not in maps and isinstance(base_of(v), ast.Name) and base_of(v).id in maps and \
+                        isinstance(v, (ast.Name, ast.Subscript)):
+                    maps[t.id] = (maps[base_of(v).id][0], t)
+                    changed = True
+                elif isinstance(t, ast.Subscript) and isinstance(base_of(t), ast.Name) and base_of(t).id in maps and isinstance(v, ast.Name) \
+                        and v.id not in maps and gvp.orig.params.count(v.id) == 0:
+                    vals = [x for _, x, _ in terminal_defs(ctx, gvp, v)]
+                    if vals and all(x is not None and _is_empty_literal(x) for x in vals):
+                        maps[v.id] = (maps[base_of(t).id][0], v)
+                        changed = True
+
+    def from_get_nodes(e, depth=0) -> bool:
+        """the iterable holds one item per node found by get_nodes (the nodes themselves, or keys built from them one by one)"""
+        if depth > 6 or e is None:
+            return False
+        e, _ = _strip_snapshot(e)
+        if isinstance(e, ast.Call):
+            if call_name(e) == "get_nodes":
+                return True
+            if isinstance(e.func, ast.Name) and e.func.id in ("sorted", "reversed", "iter") and e.args:
+                return from_get_nodes(e.args[0], depth + 1)
+            return False
+        if isinstance(e, (ast.ListComp, ast.GeneratorExp, ast.SetComp)):
+            return len(e.generators) == 1 and from_get_nodes(e.generators[0].iter, depth + 1)
+        if isinstance(e, ast.Name) and comp_generator_of(e) is None:
+            vals = [v for _, v, _ in terminal_defs(ctx, gvp, e)]
+            return bool(vals) and all(v is not None and from_get_nodes(v, depth + 1) for v in vals)
+        return False
+
+    def node_loops(node):
+        """enclosing for loops / comprehension generators that iterate the nodes found by get_nodes: [(loop, variable names)]"""
+        out = []
+        for a in ancestors(node):
+            gens = []
+            if isinstance(a, (ast.For, ast.AsyncFor)):
+                gens = [(a, a.target, a.iter)]
+            elif isinstance(a, COMPS):
+                gens = [(g, g.target, g.iter) for g in a.generators if contains(a, node) and not contains(g.iter, node)]
+            for loop, target, it in gens:
+                r = _iter_elem(it, ())
+                r2 = _iter_elem(it, (1,)) if isinstance(it, ast.Call) and call_name(it) == "enumerate" else None
+                cont = (r2 or r or (None,))[0]
+                if cont is not None and from_get_nodes(cont):
+                    names = set(target_names(target))
+                    if r2 is not None and isinstance(target, ast.Tuple) and len(target.elts) == 2:
+                        names = set(target_names(target.elts[1]))
+                    out.append((loop, names))
+            if isinstance(a, _FUNCS):
+                break
+        return out
+    sites = []           # (stmt, role, map name, key expr, value expr)
+    for n in ordered(walk_shallow(gvp.node)):
+        if isinstance(n, (ast.Assign, ast.AnnAssign)) and n.value is not None:
+            for tg0 in (n.targets if isinstance(n, ast.Assign) else [n.target]):
+                pairs = [(tg0, n.value)]
+                if isinstance(tg0, (ast.Tuple, ast.List)):
+                    vs = n.value.elts if isinstance(n.value, (ast.Tuple, ast.List)) and len(n.value.elts) == len(tg0.elts) else [n.value] * len(tg0.elts)
+                    pairs = list(zip(tg0.elts, vs))
+                for tg, val in pairs:
+                    b = base_of(tg)
+                    if isinstance(tg, ast.Subscript) and isinstance(b, ast.Name) and b.id in maps:
+                        sites.append((n, maps[b.id][0], b.id, tg.slice, val, n))
+        elif isinstance(n, ast.Call) and isinstance(n.func, ast.Attribute) and n.func.attr in ("update", "setdefault"):
+            b = base_of(n.func.value)
+            if isinstance(b, ast.Name) and b.id in maps:
+                st = stmt_of(cfg, n)
+                if n.func.attr == "setdefault" and len(n.args) == 2:
+                    sites.append((st, maps[b.id][0], b.id, n.args[0], n.args[1], n))
+                elif n.func.attr == "update" and len(n.args) == 1:
+                    v = resolve(ctx, gvp, n.args[0])
+                    if isinstance(v, ast.DictComp):
+                        sites.append((st, maps[b.id][0], b.id, v.key, v.value, v.value))
+                    elif isinstance(v, ast.Dict) and all(k is not None for k in v.keys):
+                        for k, x in zip(v.keys, v.values):
+                            sites.append((st, maps[b.id][0], b.id, k, x, n))
+                    elif node_loops(n):
+                        raise AnalysisError(f"{rid}: `{norm(n)}` merges `{norm(n.args[0])}` into the {maps[b.id][0]} map inside a loop over nodes "
+                                            f"(unrecognised form)")
+    n_checked = 0
+    for st, role, mname, key, value, anchor in sites:
+        loops = node_loops(anchor)
+        if not loops:
+            continue
+        loop, names = loops[0]
+        if isinstance(value, (ast.Dict, ast.List)) and not (value.keys if isinstance(value, ast.Dict) else value.elts):
+            continue                                           # an empty per-key container
+        n_checked += 1
+        label = f"{role} of each node [{norm(st, 80)}]"
+        dv = _loop_dependent(ctx, gvp, value, loop, names)
+        dk = _loop_dependent(ctx, gvp, key, loop, names)
+        if dv and dk:
+            ctx.ok(rid, gvp, st, f"the {role} stored for a node is looked up with that node's own key", label=label)
+        elif dv is False:
+            outside = [d for x in ast.walk(value) if isinstance(x, ast.Name) and isinstance(x.ctx, ast.Load) and comp_generator_of(x) is None
+                       for d in rd.defs_reaching(x) if not isinstance(d, ast.arguments) and d is not loop and not contains(loop, d)]
+            src = f"bound by `{norm(outside[0], 90)}` at line {outside[0].lineno}" if outside else f"`{norm(value, 90)}`"
+            ctx.violation(rid, gvp, st, f"inside the loop over the nodes of one output key, `{norm(st)}` stores a {role} ({src}) that does "
+                          f"not depend on the loop's node on every path: it is computed outside the loop (or only for some nodes) and reused, so a swept circuit "
+                          f"is read from the backend variable / position of one of them (they are only identical when all nodes were merged into "
+                          f"one vectorised variable)", label=label)
+        elif dk is False:
+            ctx.violation(rid, gvp, st, f"inside the loop over the nodes of one output key, `{norm(st)}` stores every node's {role} under the same "
+                          f"key `{norm(key)}`: all but the last node are lost", label=label)
+        else:
+            raise AnalysisError(f"{rid}: cannot tell whether `{norm(st)}` stores a per-node {role} (the value is computed inside the loop "
+                                f"without mentioning the node)")
+    ctx.require(n_checked >= 1, f"{rid}: get_variable_positions stores nothing per node inside a loop over the nodes found by get_nodes "
+                                f"(unrecognised form)")
+
+
 RULES = [
     ("C17-R1", r1_private_copy_uncoupled, 5),
     ("C17-R2", r2_one_key_per_row, 4),
@@ -2231,4 +2432,5 @@ RULES = [
     ("C17-R4", r4_all_prefix_and_run, 6),
     ("C17-R5", r5_linearize_grid, 4),
     ("C17-R6", r6_edge_update_selects_one_edge, 1),
+    ("C17-R7", r7_outputs_located_per_node, 2),
 ]
